@@ -12,9 +12,11 @@ META = {
     "level_text": (
         "Coq theorems for ALL structured flows and ALL condition oracles over a Gallina model "
         "of yielding.linear.linearize_to_subroutines (every pass) and of the generated C++ "
-        "state machine: trace equality with the structured flow (staged: raw linearisation, "
-        "then each clean-up pass by a deletion/renaming simulation), consecutive labels, "
-        "existing jump targets, no contract violation. The model is tied to the code by a "
+        "state machine: C26_linearize_correct = trace equality with the structured flow (raw "
+        "linearisation, then each clean-up pass by a deletion/renaming simulation), consecutive "
+        "labels, existing jump targets, no contract violation — all unconditional. An executable "
+        "validator (proved sound) re-checks the implementation's own output inside Coq as a "
+        "cross-check. The model is tied to the code by a "
         "correspondence stream (exhaustive small flows + random larger ones; exact "
         "statements/labels compared inside Coq), and the property statement is also executed "
         "directly on the implementation's output by two Python interpreters over every "
@@ -23,7 +25,7 @@ META = {
     "level_note": (
         "Trusted: the hand-written model agrees with the code beyond the sampled flows; the "
         "reading of cpp/yielding.py as the machine [cpp_machine] (switch fall-through, yield = "
-        "state of the next case, start state 0). See docs/C26.md for what is _partial."
+        "state of the next case, start state 0). All four theorems of the design are full (docs/C26.md)."
     ),
     "technique": "Coq proof (compiler-correctness simulation) + in-Coq correspondence check",
 }
@@ -225,7 +227,7 @@ def streams(ctx: lib.Ctx) -> None:
         ctx.corr_break("linearize", {"flow": flow}, model[-3000:],
                        results[i].get("ok", results[i].get("exc")))
     for i in invalid[:5]:
-        ctx.proof_break("validator hypothesis of C26_linearize_correct_partial",
+        ctx.proof_break("validator hypothesis of C26_validated_correct",
                         "validate f subs = false for the implementation's output on flow "
                         + G.key_of(results[i]["flow"]))
     bad = sorted(set(bad) | set(invalid))
@@ -260,7 +262,7 @@ def streams(ctx: lib.Ctx) -> None:
     ctx.count("validate", n_oracle, validated=n_oracle,
               what="validator of Model/LinearCheck.v evaluated inside Coq on the implementation's "
                    "own subroutines for every well-formed flow (hypothesis of "
-                   "C26_linearize_correct_partial)", rejected=len(invalid))
+                   "C26_validated_correct)", rejected=len(invalid))
     ctx.count("oracle", n_oracle, validated=n_oracle,
               oracle_lengths=f"all condition-outcome sequences up to length {max_bits_small} "
               f"(flows of <= 8 nodes) / {max_bits_big} (larger), explored lazily",
